@@ -68,6 +68,11 @@ CLAIMED["C12"] = dict(
     text="Exploration: for programs mixing tracked edits, clock ticks, undo, redo, foreign-origin edits, remote updates and forced gc the monitor checks the inverse law (dump equals the recorded dump before / after the deepest popped step) whenever no other origin edited since the step was captured, that a call returning false changes nothing, that the untracked type is unchanged at unit level, that elements of untracked origins stay visible in their order, and that both replicas converge after syncing the undo/redo transactions.",
     design="DESIGN.md section 3 C12")
 
+CLAIMED["C16"] = dict(
+    technique="runtime monitoring: differential execution against a bit-set (point -> attribute set) model over an exhaustively enumerated small universe, plus random instances and document delete sets",
+    text="Enumerated workload with a runtime oracle: all subsets of a 7-clock universe (x all subsets for binary operations), all 3-step construction sequences, all 1024 attributed maps over a 5-clock universe with attribute sets over {a,b}; every result is compared point by point with the model and checked for canonical form, and equal sets must compare, hash and encode equal. Sampled: random instances over 3 clients x 200 clocks, and the delete sets of simulated documents (equal to the deleted blocks of the store, disjoint from visible elements, containing every received deletion of an integrated unit). The enumeration is complete for the stated universe only.",
+    design="DESIGN.md section 3 C16")
+
 NOT_YET = {}
 
 
